@@ -149,6 +149,11 @@ def run_file(seed_i, tier, part, keep_fail_scn=True):
     if scn["level"] == "ipm":
         cobs = pipeline.read_phase(dict(scn, reader="class"), final)
         control_items = cobs.items
+        if cobs.end != "stop" or len(control_items or []) != len(asked):
+            # the decoder refuses a well-formed message of the complete file: C06's business; C09 has no
+            # expected decoded values to compare with
+            part["counters"]["probe:base_file_not_readable_when_complete"] += 1
+            return
     if ctrl.nonprefix == 0:
         part["counters"]["probe:writer_append_only_runs"] += 1
     else:
